@@ -134,3 +134,128 @@ theorem ad_extensional {α β : Type} (ad : AD α) (f g : List (DIn α) → Exce
   rw [this]
 
 end Flax.NnxLoop
+
+namespace Flax.NnxLoop
+open Flax.Filter Flax.LiftLoop
+
+/-! ### what the forward pass is run on, and what it leaves -/
+
+/-- all first occurrences over the arguments (grad: prefixes play no role in which Variables are reachable) -/
+def ownedEntries {α π : Type} : List (π × Arg α) → List VarId → List Entry
+  | [], _ => []
+  | (_, .arr _) :: rest, seen => ownedEntries rest seen
+  | (_, .node es) :: rest, seen => ownedOf es (markOwn es seen).1 ++ ownedEntries rest (markOwn es seen).2
+
+def WFArgsG {α π : Type} (pas : List (π × Arg α)) : Prop :=
+  ∀ pa ∈ pas, ∀ es, pa.2 = .node es → (es.map (·.path)).Nodup
+
+theorem gradToTree_arr_ok {α : Type} {store : Store α} {p : Option NFilter} {a : Arr α}
+    {rest : List (Option NFilter × Arg α)} {np : GPrefixes} {seen : List VarId}
+    {res : List (GPure α) × List (Option (State α))}
+    (h : gradToTree store ((p, .arr a) :: rest) np seen = .ok res) :
+    ∃ r, gradToTree store rest np seen = .ok r ∧ res = (.arr a :: r.1, r.2) := by
+  simp only [gradToTree] at h
+  cases hr : gradToTree store rest np seen with
+  | error e => simp [hr] at h
+  | ok r => simp only [hr] at h; injection h with h; exact ⟨r, rfl, h.symm⟩
+
+/-- the merged state of one graph-node argument (`diff` from the jax argument, `nondiff` closed over) holds every owned
+Variable's value at its path -/
+theorem gradToTree_node_ok {α : Type} {store : Store α} {p : Option NFilter} {es : List Entry}
+    {rest : List (Option NFilter × Arg α)} {np : GPrefixes} {seen : List VarId}
+    {res : List (GPure α) × List (Option (State α))}
+    (h : gradToTree store ((p, .node es) :: rest) np seen = .ok res) :
+    ∃ flat r st nd, flatOf (ownedOf es (markOwn es seen).1) store = .ok flat ∧
+      gradToTree store rest (np ++ es.map (fun e => (e.id, p))) (markOwn es seen).2 = .ok r ∧
+      res = (.node ⟨es, (markOwn es seen).1⟩ st :: r.1, nd :: r.2) ∧
+      (∀ pv, pv ∈ st ++ nd.getD [] ↔ ∃ x ∈ flat, pv = (x.1, x.2.2)) := by
+  simp only [gradToTree] at h
+  split at h
+  · cases h
+  cases h2 : flatOf (ownedOf es (markOwn es seen).1) store with
+  | error e => simp [h2] at h
+  | ok flat =>
+    simp only [h2] at h
+    cases h3 : gradToTree store rest (np ++ es.map (fun e => (e.id, p))) (markOwn es seen).2 with
+    | error e => simp [h3] at h
+    | ok r =>
+      simp only [h3] at h
+      cases p with
+      | none =>
+        simp only [] at h
+        injection h with h
+        refine ⟨flat, r, _, none, rfl, rfl, h.symm, ?_⟩
+        intro pv
+        simp only [Option.getD_none, List.append_nil, List.mem_map]
+        constructor
+        · rintro ⟨x, hx, rfl⟩; exact ⟨x, hx, rfl⟩
+        · rintro ⟨x, hx, rfl⟩; exact ⟨x, hx, rfl⟩
+      | some f =>
+        simp only [split_diff_nondiff] at h
+        injection h with h
+        refine ⟨flat, r, _, some _, rfl, rfl, h.symm, ?_⟩
+        intro pv
+        simp only [Option.getD_some, List.mem_append, List.mem_map, List.mem_filter]
+        constructor
+        · rintro (⟨x, ⟨hx, _⟩, rfl⟩ | ⟨x, ⟨hx, _⟩, rfl⟩) <;> exact ⟨x, hx, rfl⟩
+        · rintro ⟨x, hx, rfl⟩
+          by_cases hd : denote f x.1 x.2.1 = true
+          · exact Or.inl ⟨x, ⟨hx, hd⟩, rfl⟩
+          · exact Or.inr ⟨x, ⟨hx, by simpa using hd⟩, rfl⟩
+
+/-- **The forward pass is run on the caller's values.**  Whatever `argnums` / `DiffState` filters select, after
+`ctx.split(value, filter, ...)`, handing `diff` to jax and closing over `nondiff`, `GradFn` merges the two again: at the
+original values the traced function sees every reachable Variable, once, in first-occurrence order, with the value the
+caller's object holds — selected and unselected alike.  (So the value, the aux and the side effects of
+`grad_value_aux_effects_once` are those of one eager call.) -/
+theorem grad_forward_sees_caller_values {α : Type} [Inhabited α] (store : Store α) :
+    ∀ (pas : List (Option NFilter × Arg α)) (np : GPrefixes) (seen : List VarId)
+      (res : List (GPure α) × List (Option (State α))) (inner : Store α),
+      WFArgsG pas → gradToTree store pas np seen = .ok res → inner.map (·.1) = seen →
+      ∃ ins, mapX (fun (e : Entry) => match store.getX e.id with
+          | .ok v => Except.ok (e.id, v)
+          | .error err => .error err) (ownedEntries pas seen) = .ok ins ∧
+        gradMergeAll res.1 res.2 inner = .ok (inner ++ ins) := by
+  intro pas
+  induction pas with
+  | nil =>
+    intro np seen res inner _ h _
+    simp only [gradToTree] at h
+    injection h with h
+    subst h
+    exact ⟨[], rfl, by simp [gradMergeAll]⟩
+  | cons pa rest ih =>
+    intro np seen res inner hwf h hinv
+    obtain ⟨p, arg⟩ := pa
+    cases arg with
+    | arr a =>
+      obtain ⟨r, hr, rfl⟩ := gradToTree_arr_ok h
+      obtain ⟨ins, h1, h2⟩ := ih np seen r inner (fun q hq => hwf q (List.mem_cons_of_mem _ hq)) hr hinv
+      exact ⟨ins, by simpa [ownedEntries] using h1, by simpa [gradMergeAll] using h2⟩
+    | node es =>
+      obtain ⟨flat, r, st, nd, hfl, hr, rfl, hmem⟩ := gradToTree_node_ok h
+      have hes : (es.map (·.path)).Nodup := hwf (p, .node es) (by simp) es rfl
+      have hnd : (flat.map (·.1)).Nodup := by rw [flatOf_paths hfl]; exact owned_paths_nodup _ hes
+      have hlk := lookup_by_membership hnd (fun x => x.2.2) (st ++ nd.getD [])
+        (fun x hx => (hmem _).2 ⟨x, hx, rfl⟩) (fun kb hkb => (hmem kb).1 hkb)
+      obtain ⟨hfa, _⟩ := flatOf_eq_map hfl
+      let w : Entry → Arr α := fun e => (store.lookup e.id).getD default
+      have hown : ∀ e ∈ ownedOf es (markOwn es seen).1,
+          store.getX e.id = .ok (w e) ∧ (st ++ nd.getD []).lookup e.path = some (w e) := by
+        intro e he
+        obtain ⟨v, hv, hm⟩ := hfa e he
+        have hw : w e = v := by simp [w, hv]
+        exact ⟨by simp [Store.getX, hv, hw], by rw [hw]; exact hlk _ hm⟩
+      have hmerge := mergeEntries_markOwn w (st ++ nd.getD []) es seen inner hinv (fun e he => (hown e he).2)
+      have hinv' : (inner ++ (ownedOf es (markOwn es seen).1).map (fun e => (e.id, w e))).map (·.1)
+          = (markOwn es seen).2 := by
+        rw [markOwn_seen, List.map_append, hinv, List.map_map]; rfl
+      obtain ⟨ins, h1, h2⟩ := ih _ (markOwn es seen).2 r _ (fun q hq => hwf q (List.mem_cons_of_mem _ hq)) hr hinv'
+      refine ⟨(ownedOf es (markOwn es seen).1).map (fun e => (e.id, w e)) ++ ins, ?_, ?_⟩
+      · simp only [ownedEntries]
+        apply mapX_append_of_ok _ h1
+        exact mapX_eq_map _ (fun e he => by simp only [(hown e he).1])
+      · simp only [gradMergeAll, hmerge]
+        rw [h2, List.append_assoc]
+
+end Flax.NnxLoop
